@@ -4,6 +4,7 @@ CONSTANTS
   MaxSlot = 9
   MaxGen = 3
   MaxFaults = 0
+  MaxPersist = 1
   Variants = 1
   Kinds = {"att"}
   FaultKinds = {}
